@@ -46,7 +46,7 @@ EXPECTED_PROBES = ["neutral-name-sniffed", "stdin-read", "first-chunk-inside-mag
 CODECS = ["none", "gz", "bz2", "lz4", "zst"]
 EXT = {"none": "", "gz": ".gz", "bz2": ".bz2", "lz4": ".lz4", "zst": ".zst"}
 MAGIC = {"gz": b"\x1f\x8b", "bz2": b"BZh", "lz4": b"\x04\x22\x4d\x18", "zst": b"\x28\xb5\x2f\xfd"}
-NAMINGS = ["ext-path", "neutral-path", "bytesio", "bufreader", "rawobj", "stdin-dash", "stdin-none", "scheme-stdin", "bufreader-small", "stdin-nopeek", "bytesio-offset", "bufreader-offset", "ext-path-after-selector", "rawobj-seekable", "fifo-path", "zip-member", "ext-path-double-slash"]
+NAMINGS = ["ext-path", "neutral-path", "bytesio", "bufreader", "rawobj", "stdin-dash", "stdin-none", "scheme-stdin", "bufreader-small", "stdin-nopeek", "bytesio-offset", "bufreader-offset", "ext-path-after-selector", "rawobj-seekable", "fifo-path", "zip-member", "ext-path-double-slash", "stdin-empty", "scheme-stdin-bare"]
 NEED_FIRST = {"gz": 2, "bz2": 3, "lz4": 4, "zst": 4}
 
 STREAM_TYPES = ["string", "varint", "uint32", "boolean", "float", "bytes", "datetime", "string[]", "path", "net.ipaddress"]
@@ -313,13 +313,17 @@ def do_read(w, plan, naming, delivery, data, container, codec, tag):
             w.set_stdin_nopeek(data, hp)
             w.probe("stdin-read")
             rd = RecordReader("-")
-        elif naming in ("stdin-dash", "stdin-none", "scheme-stdin"):
+        elif naming in ("stdin-dash", "stdin-none", "scheme-stdin", "stdin-empty", "scheme-stdin-bare"):
             w.set_stdin(data, hp)
             w.probe("stdin-read")
             if naming == "stdin-dash":
                 rd = RecordReader("-")
             elif naming == "stdin-none":
                 rd = RecordReader()
+            elif naming == "stdin-empty":
+                rd = RecordReader("")  # the third spelling of standard input
+            elif naming == "scheme-stdin-bare":
+                rd = RecordReader(("avro" if container == "avro" else "stream") + "://")
             else:
                 w.probe("scheme-stdin")
                 rd = RecordReader(("avro" if container == "avro" else "stream") + "://-")
@@ -436,7 +440,7 @@ def execute(plan, keep_log=False):
             plain0 = b""
         for ri, rd in enumerate(plan["reads"]):
             naming, delivery = rd["naming"], rd["delivery"]
-            deliv = delivery if naming in ("bufreader", "bufreader-small", "rawobj", "stdin-dash", "stdin-none", "scheme-stdin", "stdin-nopeek", "rawobj-seekable") else {"sizes": [], "tail": "whole", "kind": "whole"}
+            deliv = delivery if naming in ("bufreader", "bufreader-small", "rawobj", "stdin-dash", "stdin-none", "scheme-stdin", "stdin-nopeek", "rawobj-seekable", "stdin-empty", "scheme-stdin-bare") else {"sizes": [], "tail": "whole", "kind": "whole"}
             got, outcome, cls, stage = do_read(w, plan, naming, deliv, data, container, c, "r%d" % ri)
             evals += 1
             if naming == "neutral-path" and outcome == "ok":
